@@ -1,5 +1,178 @@
-"""Sanitizer shards for C05 (thorough tier only) - filled in later in this session."""
+"""Sanitizer shards for C05 (thorough tier; `./check C05 thorough`).
+
+jawk has no `unsafe` and no threads, so these tools cannot see a defect of jawk's own code that the panic / abort boundary
+does not see; they extend "never aborts" to "does not drive a dependency (regex, hashbrown/indexmap, bigdecimal, chrono,
+base64, memchr, clap) into undefined behaviour on the inputs explored".  Each shard runs the *same* driver protocol
+(`jdrive serve`) under a different execution engine and feeds it C05's own generated cases:
+
+  valgrind memcheck  release driver under `valgrind --error-exitcode=97`; invalid read/write/uninitialised-use reports are
+                     violations, leaks are not looked at.
+  ASan               driver rebuilt with `cargo +nightly -Zsanitizer=address`; a report aborts the process
+                     (halt_on_error=1) and is picked up from ASAN's log_path.
+  Miri               `cargo +nightly miri run -- serve` (isolation disabled so that stdin/stdout/clock work; leak check off
+                     because the driver keeps its panic-hook state alive); "Undefined Behavior" on stderr is a violation,
+                     "unsupported operation" makes that shard inconclusive.
+
+A tool that cannot be built or started here makes its shard inconclusive (reported in the evidence), never a violation.
+"""
+import glob
+import os
+import re
+import shutil
+import subprocess
+import time
+
+from .. import core
+from . import c05
+
+TOOLS = ("valgrind", "asan", "miri")
 
 
-def run_all(env, stats):
-    return {"status": "not run in this build of the check"}
+def _units(rng, n, small):
+    out = []
+    for _ in range(n):
+        u = c05.gen_bytes_unit(rng) if rng.random() < 0.35 else c05.gen_expr_unit(rng)
+        if small and len(u["input"]) > 300:
+            u["input"] = u["input"][:300]
+        out.append(u)
+    return out
+
+
+def _case(u):
+    if u["kind"] == "bytes":
+        return core.Case(["--on-error", u["policy"]] + u["args"], u["input"])
+    return core.Case(c05.expr_args(u), u["input"])
+
+
+def build_asan():
+    drv = os.path.join(core.ROOT, "driver")
+    tdir = os.path.join(core.TARGET, "asan")
+    env = {"RUSTFLAGS": "-Zsanitizer=address -Cforce-frame-pointers=yes"}
+    r = core._cargo(["+nightly", "build", "--offline", "--release", "--target", "x86_64-unknown-linux-gnu", "--target-dir", tdir,
+                     "--features", "hooks"], drv, env)
+    if r.returncode != 0:
+        return None, r.stdout.decode("utf-8", "replace")[-1500:]
+    return os.path.join(tdir, "x86_64-unknown-linux-gnu", "release", "jdrive"), ""
+
+
+def build_miri():
+    """Compile the driver for Miri once (the interpreter run itself happens per worker)."""
+    drv = os.path.join(core.ROOT, "driver")
+    tdir = os.path.join(core.TARGET, "miri")
+    env = {"MIRIFLAGS": "-Zmiri-disable-isolation -Zmiri-ignore-leaks"}
+    # `miri run` with an empty stdin: serve() returns at once, everything is compiled as a side effect
+    try:
+        r = subprocess.run(["cargo", "+nightly", "miri", "run", "--offline", "--features", "hooks", "--target-dir", tdir, "--", "serve"],
+                           cwd=drv, env=dict(os.environ, CARGO_NET_OFFLINE="true", **env), stdin=subprocess.DEVNULL,
+                           stdout=subprocess.PIPE, stderr=subprocess.STDOUT, timeout=1500)
+    except subprocess.TimeoutExpired:
+        return False, "miri build timed out"
+    return r.returncode == 0, r.stdout.decode("utf-8", "replace")[-1500:]
+
+
+def worker(ctx):
+    st = ctx.stats
+    tool = ctx.params["tool"]
+    n = ctx.params["units_per_worker"]
+    logdir = os.path.join(ctx.scratch + "-" + tool)
+    os.makedirs(logdir, exist_ok=True)
+    errlog = os.path.join(logdir, "stderr.log")
+    if tool == "valgrind":
+        drv = core.Driver(ctx.params["release"], ctx.scratch,
+                          wrapper=["valgrind", "--quiet", "--error-exitcode=97", "--leak-check=no", "--num-callers=20",
+                                   "--log-file=" + os.path.join(logdir, "vg.%p.log")], stderr_path=errlog)
+    elif tool == "asan":
+        env = dict(os.environ)
+        env["ASAN_OPTIONS"] = "halt_on_error=1:abort_on_error=1:detect_leaks=0:log_path=" + os.path.join(logdir, "asan")
+        drv = core.Driver(ctx.params["asan"], ctx.scratch, env=env, stderr_path=errlog)
+    else:
+        env = dict(os.environ, CARGO_NET_OFFLINE="true", MIRIFLAGS="-Zmiri-disable-isolation -Zmiri-ignore-leaks")
+        drv = core.Driver(None, ctx.scratch, env=env, cwd=os.path.join(core.ROOT, "driver"), stderr_path=errlog,
+                          cmd=["cargo", "+nightly", "miri", "run", "--offline", "--features", "hooks", "--target-dir",
+                               os.path.join(core.TARGET, "miri"), "--", "serve"])
+    units = _units(ctx.rng, n, small=(tool == "miri"))
+    done = 0
+    try:
+        for u in units:
+            if ctx.expired():
+                st.count(tool + "_stopped_by_deadline")
+                break
+            c = _case(u)
+            c.watchdog_ms = 300000 if tool == "miri" else 60000
+            o = drv.run(c)
+            done += 1
+            st.count(tool + "_executions")
+            st.count(tool + "_result_" + o.result)
+            if o.result == "panic":
+                loc = o.panicinfo.split(" ")[0].replace("/repo/", "")
+                st.violation("panic:%s" % loc, "panic under %s: %s" % (tool, o.panicinfo[:300]), u, {"args": c.args, "input": u["input"][:800]})
+            elif o.result in ("abort", "timeout"):
+                # decided below from the tool's own report; without a report it is inconclusive (slow engine, not a hang verdict)
+                st.count(tool + "_driver_died_or_slow")
+                st.sets.setdefault(tool + "_suspects", set()).add(repr((c.args, u["input"][:200])))
+            if done <= 1 and ctx.idx == 0:
+                st.sample({"tool": tool, "args": [a if isinstance(a, str) else a.decode("latin-1") for a in c.args][:8],
+                           "input": u["input"][:120].decode("latin-1")})
+    finally:
+        drv.close()
+    # collect reports
+    reports = []
+    if tool == "valgrind":
+        for f in glob.glob(os.path.join(logdir, "vg.*.log")):
+            txt = open(f, errors="replace").read()
+            for blk in re.split(r"\n==\d+== \n", txt):
+                if re.search(r"Invalid (read|write|free)|uninitialised|Mismatched free|Source and destination overlap|Jump to the invalid", blk):
+                    reports.append(blk[:1500])
+    elif tool == "asan":
+        for f in glob.glob(os.path.join(logdir, "asan*")):
+            txt = open(f, errors="replace").read()
+            if "ERROR: AddressSanitizer" in txt:
+                reports.append(txt[:2500])
+    else:
+        txt = open(errlog, errors="replace").read() if os.path.exists(errlog) else ""
+        if "Undefined Behavior" in txt:
+            i = txt.index("Undefined Behavior")
+            reports.append(txt[max(0, i - 200):i + 2000])
+        elif "unsupported operation" in txt:
+            st.inconc("miri_unsupported_operation")
+            st.notes.append("miri: " + txt[txt.index("unsupported operation") - 100:][:600].replace("\n", " | "))
+    for rp in reports:
+        first = [l for l in rp.splitlines() if ("at " in l or "#" in l) and ("jawk" in l or "src/" in l)]
+        sig = "%s-report:%s" % (tool, re.sub(r"0x[0-9a-fA-F]+|\d+", "N", (first[0] if first else rp.splitlines()[0]))[:100])
+        st.violation(sig, "%s reported a memory error" % tool, {"kind": "sanitizer", "tool": tool}, {"report": rp})
+    st.count(tool + "_reports", len(reports))
+    shutil.rmtree(logdir, ignore_errors=True)
+
+
+def run_all(env, stats, budget_s=None):
+    """Run the three shards; merges counters and violations into `stats`, returns a summary for the evidence."""
+    summary = {}
+    release = env.driver
+    plan = []
+    if shutil.which("valgrind"):
+        plan.append(("valgrind", {"release": release, "units_per_worker": 300}, 900))
+    else:
+        summary["valgrind"] = "not installed"
+    asan, msg = build_asan()
+    if asan:
+        plan.append(("asan", {"asan": asan, "units_per_worker": 12000}, 900))
+    else:
+        summary["asan"] = "inconclusive: build failed: " + msg[-300:]
+        stats.inconc("asan_build_failed")
+    ok, msg = build_miri()
+    if ok:
+        plan.append(("miri", {"units_per_worker": 25}, 1500))
+    else:
+        summary["miri"] = "inconclusive: build failed: " + msg[-300:]
+        stats.inconc("miri_build_failed")
+    for tool, params, budget in plan:
+        params["tool"] = tool
+        t = time.time()
+        st = core.run_workers(__name__, "worker", "C05", env.tier, env.seed, release, env.hooks_on, budget_s or budget, params)
+        # driver_executions of the shards are counted separately from the main workload
+        for k in ("driver_executions", "driver_restarts", "isolated_reruns"):
+            st.counters.pop(k, None)
+        stats.merge(st)
+        summary[tool] = {"executions": st.counters.get(tool + "_executions", 0), "reports": st.counters.get(tool + "_reports", 0),
+                         "died_or_slow": st.counters.get(tool + "_driver_died_or_slow", 0), "wall_s": round(time.time() - t, 1)}
+    return summary
